@@ -30,7 +30,12 @@ RULE = ("Composite apertures: Hypothesis draws ring count, samples per segment (
         "float64 / float32 / integer unit piston), list of lists, tuple of arrays, at scales 1e-12 .. 1e6 and both signs with every "
         "segment at its own scale (map on segment k == s_k x map of the unscaled row, 1e-11 relative), out= entry point, prepare_opd_bases "
         "called twice on one object; every array argument compared with a copy after the call, every kept result (masks, amp, OPD maps) "
-        "compared with a copy after later calls and after a second aperture is built on the same grid.")
+        "compared with a copy after later calls and after a second aperture is built on the same grid.  Value pattern of the coefficient set: "
+        "rows that are exactly equal - the same unit piston / piston / tilt / full row on every segment, on a random subset (the others zero, or with "
+        "rows of their own), or 2-3 distinct rows dealt to the segments; as array, integer array, list / tuple whose tied entries are one and the "
+        "same row object; keystone: the same piston on the centre and on all segments (the centre vector being the segments' row object when the "
+        "bases have as many modes).  Oracle: the map equals the sum of the single-segment compositions (1e-12), is zero outside the segments "
+        "that were given a non-zero row, and a piston is non-zero on every sample owned by exactly one of its segments.")
 ASSUMPTIONS = [
     "'within the rasterisation of its boundary' is read in two ways, both asserted: area within perimeter*dx, and membership may "
     "differ from the analytic shape only at samples within 1.25 (hexagon) / 1.5 (keystone) sample spacings of its boundary; the "
@@ -365,14 +370,18 @@ def check_opd_common(ctx, compose, nseg, nmodes, piston_idx, placed_masks, shape
     form = case.get('cform', 'array')
     ctx.label('coefs-as:' + form, *set('coef-scale:1e%+03d' % e for e in exps))
 
-    def run(C, **kw):
-        """one call with the coefficient set C in the drawn container form; returns (map, represented values)"""
-        arg, vals = coef_arg(C, 'array' if form == 'int' else form)
+    def run_arg(arg, **kw):
+        """one call with the container `arg` exactly as given: container unchanged, map of the aperture's shape"""
         before = _copy_arg(arg)
         o = np.asarray(ctx.call(compose, arg, **kw))
         ctx.require(_same_arg(before, arg), kind + ':argument-modified', 'compose_opd changed the coefficient %s it was given' % type(arg).__name__)
         U.check_shape(o, shape, kind + ':opd')
-        return o, vals
+        return o
+
+    def run(C, **kw):
+        """one call with the coefficient set C in the drawn container form; returns (map, represented values)"""
+        arg, vals = coef_arg(C, 'array' if form == 'int' else form)
+        return run_arg(arg, **kw), vals
 
     zero = np.zeros((nseg, nmodes))
     base, _ = run(zero)
@@ -478,6 +487,116 @@ def check_opd_common(ctx, compose, nseg, nmodes, piston_idx, placed_masks, shape
     res, _ = run(scales[:, None] * C1, out=buf)
     ctx.require(np.array_equal(res, again_ref) and np.array_equal(buf, again_ref), kind + ':out-argument',
                 'compose_opd(coefs, out=zeros): returned map / out differ from compose_opd(coefs) at %d / %d samples' % (int((res != again_ref).sum()), int((buf != again_ref).sum())))
+    if case.get('tie') is not None and nseg > 1:
+        check_tied_rows(ctx, run, run_arg, form, nseg, nmodes, piston_idx, placed_masks, cnt, seed, kind, case['tie'], S)
+
+
+def tied_rows(tie, nseg, nmodes, piston_idx, r, S, whole):
+    """coefficient set (nseg, nmodes) whose rows repeat exactly, and the group number of every segment (-1: a row of its own).
+    tie['kind']: 'unit-piston' (1.0), 'piston' (one value), 'tilt' (no piston, the other modes), 'row' (every mode non-zero);
+    tie['who']: 'all' (one row on every segment - global piston / tilt, what np.ones / np.tile give), 'groups' (2-3 distinct rows dealt to the
+    segments), 'subset' (one row on some segments, zero rows on the others), 'subset+random' (the others get rows of their own).
+    whole=True: whole-number values (integer coefficient arrays)."""
+    kind = tie['kind']
+    if nmodes == 1 and kind == 'tilt':
+        kind = 'piston'
+
+    def one_row():
+        row = np.zeros(nmodes)
+        if whole:
+            v = r.integers(1, 4, nmodes) * np.where(r.uniform(size=nmodes) < 0.5, -1.0, 1.0)
+        else:
+            v = S * r.uniform(0.5, 2.0, nmodes) * np.where(r.uniform(size=nmodes) < 0.5, -1.0, 1.0)
+        if kind == 'unit-piston':
+            row[piston_idx] = 1.0
+        elif kind == 'piston':
+            row[piston_idx] = v[piston_idx]
+        elif kind == 'tilt':
+            row[:] = v
+            row[piston_idx] = 0.0
+        else:
+            row[:] = v
+        return row
+    who = tie['who']
+    group = np.full(nseg, -1, dtype=int)
+    if who == 'all':
+        group[:] = 0
+    elif who == 'groups':
+        ng = 2 + int(tie.get('pick', 0)) % 2
+        group[:] = r.permutation(nseg) % ng
+    else:
+        m = max(2, int(round(nseg * (0.3 + 0.1 * (int(tie.get('pick', 0)) % 5)))))
+        group[r.permutation(nseg)[:min(m, nseg)]] = 0
+    rows = [one_row() for _ in range(int(group.max()) + 1)]
+    if kind == 'unit-piston' and len(rows) > 1:
+        for g in range(1, len(rows)):
+            rows[g] = rows[g] * float(g + 1)          # pistons of 1, 2, 3
+    C = np.zeros((nseg, nmodes))
+    for k in range(nseg):
+        if group[k] >= 0:
+            C[k] = rows[group[k]]
+        elif who == 'subset+random':
+            C[k] = (np.rint(r.uniform(-3, 3, nmodes)) if whole else S * r.uniform(-1, 1, nmodes))
+    return C, group, rows, kind
+
+
+def check_tied_rows(ctx, run, run_arg, form, nseg, nmodes, piston_idx, placed_masks, cnt, seed, kind, tie, S):
+    """value pattern of the coefficient set: rows that are exactly equal (the same piston / tilt / row on every segment, on a
+    subset, a few distinct rows dealt to the segments).  Per-segment OPD is confined to its own segment and composition is
+    linear, so the map is the sum of the maps of the single-segment coefficient sets, it vanishes outside the segments that
+    have a non-zero row, and a piston covers exactly those segments."""
+    r = U.rng_of(seed, 183)
+    whole = form == 'int'
+    C, group, rows, tkind = tied_rows(tie, nseg, nmodes, piston_idx, r, S, whole)
+    ctx.label('tied-rows:' + tkind, 'tied-rows:' + tie['who'])
+    same_obj = bool(tie.get('same_object', False)) and form in ('list', 'tuple-of-arrays')
+    if whole:
+        whole_arg = C.astype(np.int64)
+        o = run_arg(whole_arg)
+        vals = C
+    elif same_obj:
+        # the caller builds the per-segment iterable from one row object per group: (row,) * nseg, [piston_row] * nseg
+        ctx.label('tied-rows:same-row-object')
+        objs = [(np.array(rw) if form == 'tuple-of-arrays' else [float(v) for v in rw]) for rw in rows]
+        seq = [objs[g] if g >= 0 else (np.array(C[k]) if form == 'tuple-of-arrays' else [float(v) for v in C[k]]) for k, g in enumerate(group)]
+        o = run_arg(tuple(seq) if form == 'tuple-of-arrays' else seq)
+        vals = C
+    else:
+        o, vals = run(C)
+    ctx.require(np.isfinite(o).all(), kind + ':opd-nonfinite', 'compose_opd of a coefficient set with equal rows is not finite')
+    live = [k for k in range(nseg) if np.any(vals[k] != 0)]
+    union = np.zeros(o.shape, dtype=bool)
+    for k in live:
+        union |= placed_masks[k]
+    what = '%s coefficient set with exactly equal rows (%s on %s; rows %s)' % (form, tkind, tie['who'], ', '.join('%d x %s' % (int((group == g).sum()), np.array2string(vals[np.argmax(group == g)], precision=6)) for g in range(len(rows))))
+    leak = (o != 0) & ~union
+    ctx.require(not leak.any(), kind + ':opd-leak:equal-rows', '%s: OPD is non-zero on %d samples outside the segments that were given coefficients (%d of them outside every segment)' % (
+        what, int(leak.sum()), int((leak & (cnt == 0)).sum())))
+    if tkind in ('unit-piston', 'piston'):
+        # (samples owned by one segment only: on an edge shared by two touching segments two pistons may cancel)
+        tied = np.zeros(o.shape, dtype=bool)
+        for k in live:
+            if group[k] >= 0:
+                tied |= placed_masks[k]
+        hole = (o == 0) & tied & (cnt == 1)
+        ctx.require(not hole.any(), kind + ':piston-support:equal-rows', '%s: %d samples of the segments that were given a piston carry no OPD' % (what, int(hole.sum())))
+    # linearity: the whole is the sum of the single-segment parts
+    total = np.zeros(o.shape)
+    for k in live:
+        Ck = np.zeros((nseg, nmodes))
+        Ck[k] = vals[k]
+        part = run_arg(Ck.astype(np.int64)) if whole else run(Ck)[0]      # (float32 form: vals are float32 values already)
+        own = placed_masks[k]
+        lk = ((part != 0) | ~np.isfinite(part)) & ~own
+        ctx.require(not lk.any(), kind + ':opd-leak', 'coefficients on segment index %d alone change %d samples outside its mask' % (k, int(lk.sum())))
+        total += part
+    scale = max(float(np.abs(total).max()), float(np.abs(vals).max()))
+    e = np.abs(o - total)
+    if float(e.max()) > 1e-12 * scale:
+        i = np.unravel_index(int(np.argmax(e)), e.shape)
+        ctx.fail(kind + ':opd-linear:equal-rows', '%s: compose_opd(C) differs from the sum of the %d single-segment compositions on %d samples (%d of them outside every segment); '
+                 'largest difference %.3g at sample %r: %r vs %r' % (what, len(live), int((e > 1e-12 * scale).sum()), int(((e > 1e-12 * scale) & (cnt == 0)).sum()), float(e.max()), tuple(int(v) for v in i), float(o[i]), float(total[i])))
+    ctx.tally('tied_row_sets_checked', 1)
 
 
 def strat_hex_opd(tier):
@@ -500,7 +619,11 @@ def opd_extras():
     return {'cexp': st.lists(st.one_of(st.integers(-12, 6), st.sampled_from([-12, -10, -9, -8, -7, 0, 0, 3, 6])), min_size=1, max_size=4),
             'csign': st.lists(st.sampled_from([1, -1]), min_size=1, max_size=3),
             'cform': st.sampled_from(COEF_FORMS), 'layout': U.layouts, 'reprepare': st.booleans(),
-            'exclude_form': st.sampled_from(['tuple', 'list', 'ndarray'])}
+            'exclude_form': st.sampled_from(['tuple', 'list', 'ndarray']),
+            # coefficient sets with exactly equal rows (global piston / tilt, one row tiled, a subset of segments moved together)
+            'tie': st.fixed_dictionaries({'kind': st.sampled_from(['unit-piston', 'piston', 'tilt', 'row']),
+                                          'who': st.sampled_from(['all', 'all', 'groups', 'subset', 'subset+random']),
+                                          'pick': st.integers(0, 9), 'same_object': st.booleans()})}
 
 
 def check_hex_opd(case, ctx):
@@ -857,6 +980,36 @@ def check_keystone_opd(case, ctx):
     # centre: piston, leakage, linearity with the segments held at zero
     zs = np.zeros((nseg, len(sorders)))
     check_opd_common(ctx, lambda c, **k: ka.compose_opd(c[0], zs.copy(), **k), 1, len(corders), cpk, [pmc], (n, n), case['seed'] + 1, 'keystone:center', [0], case)
+    if case.get('tie') is not None:
+        # the same piston on the centre and on every segment (a global piston), and the centre's coefficient vector being the very
+        # row object / an equal copy of the segments' rows when both bases have as many modes: the map is the piston on every
+        # sample owned by one segment, nothing elsewhere, and the sum of the centre-only and the segments-only compositions
+        ctx.label('global-piston:centre+segments')
+        rr = U.rng_of(case['seed'], 187)
+        v = 1.0 if case['tie']['kind'] == 'unit-piston' else float(rr.uniform(0.5, 2.0) * (-1) ** int(case['tie'].get('pick', 0)) * 10.0 ** int((case.get('cexp') or [0])[0]))
+        cc = np.zeros(len(corders))
+        cc[cpk] = v
+        sc = np.zeros((nseg, len(sorders)))
+        sc[:, spk] = v
+        if len(corders) == len(sorders) and cpk == spk and case['tie'].get('same_object', False):
+            ctx.label('global-piston:centre-row-is-the-segments-row-object')
+            seg_arg = [cc] * nseg
+        else:
+            seg_arg = sc.copy()
+        o = np.asarray(ctx.call(ka.compose_opd, cc, seg_arg))
+        ctx.require(cc[cpk] == v and np.count_nonzero(cc) == 1 and (isinstance(seg_arg, list) or np.array_equal(seg_arg, sc)), 'keystone:argument-modified',
+                    'compose_opd changed the coefficients of a global piston')
+        U.check_shape(o, (n, n), 'keystone:opd')
+        owners = pmc.astype(np.int32)
+        for pm in pms:
+            owners += pm
+        leak = (o != 0) & (owners == 0)
+        hole = (o == 0) & (owners > 0)
+        ctx.require(not leak.any() and not hole.any(), 'keystone:piston-support:equal-rows', 'piston of %g on the centre and on all %d segments: OPD non-zero on %d samples outside every '
+                    'segment, zero on %d samples of the segments' % (v, nseg, int(leak.sum()), int(hole.sum())))
+        oc = np.asarray(ctx.call(ka.compose_opd, cc.copy(), np.zeros((nseg, len(sorders)))))
+        os_ = np.asarray(ctx.call(ka.compose_opd, np.zeros(len(corders)), sc.copy()))
+        U.check_close(o, oc + os_, 0, 'keystone:opd-linear:equal-rows', 'global piston of %g: compose(centre, segments) vs compose(centre, 0) + compose(0, segments)' % v, atol=1e-12 * abs(v))
     keep.verify('keystone')
 
 
@@ -1334,11 +1487,11 @@ def check_spider(case, ctx):
 
 
 CLAUSES = [
-    HypClause('hex_tiling', strat_hex, check_hex_tiling, examples={'quick': 250, 'thorough': 2000}, shards={'quick': 4, 'thorough': 12}),
+    HypClause('hex_tiling', strat_hex, check_hex_tiling, examples={'quick': 250, 'thorough': 1400}, shards={'quick': 4, 'thorough': 12}),
     EnumClause('hex_single_exclusions', enum_hex_single, check_hex_tiling, shards={'quick': 2, 'thorough': 8}),
-    HypClause('hex_opd', strat_hex_opd, check_hex_opd, examples={'quick': 200, 'thorough': 1500}, shards={'quick': 2, 'thorough': 8}),
-    HypClause('keystone_tiling', strat_keystone, check_keystone_tiling, examples={'quick': 300, 'thorough': 2500}, shards={'quick': 4, 'thorough': 12}),
-    HypClause('keystone_opd', strat_keystone_opd, check_keystone_opd, examples={'quick': 150, 'thorough': 1200}, shards={'quick': 2, 'thorough': 8}),
+    HypClause('hex_opd', strat_hex_opd, check_hex_opd, examples={'quick': 200, 'thorough': 1000}, shards={'quick': 2, 'thorough': 8}),
+    HypClause('keystone_tiling', strat_keystone, check_keystone_tiling, examples={'quick': 300, 'thorough': 1500}, shards={'quick': 4, 'thorough': 12}),
+    HypClause('keystone_opd', strat_keystone_opd, check_keystone_opd, examples={'quick': 150, 'thorough': 900}, shards={'quick': 2, 'thorough': 8}),
     HypClause('round_masks', strat_round, check_round, examples={'quick': 1200, 'thorough': 6000}, shards={'quick': 1, 'thorough': 6}),
     HypClause('polygon', strat_polygon, check_polygon, examples={'quick': 1200, 'thorough': 6000}, shards={'quick': 1, 'thorough': 6}),
     HypClause('rect_ellipse', strat_rect, check_rect_ellipse, examples={'quick': 1200, 'thorough': 6000}, shards={'quick': 1, 'thorough': 6}),
